@@ -155,4 +155,176 @@ theorem connId_run {now : Nat} {classic : Bool} {A : Op → Prop} {l l' : FLink 
       select := fun _ l a x h => h }
   exact hR.of_run h
 
+/-! ## The client event, exactly (audit round 2) -/
+
+deriving instance DecidableEq for KOp
+
+/-- **The block of set operations a `client` event performs on link `j`, as a FUNCTION of the pre-state** (conn ids
+pairwise distinct).  With `app = appended s (.client now pkt) j` — what the event appends to link `j`'s batch
+queue: the unique copy on the chosen link, a probe copy on a stall-gated connected link whose 1-in-100 counter
+fires, nothing on any other link (`C01_exactly_one_unique_copy` is its closed form) —
+* nothing appended: no operation;
+* appended, the queue stays below the regime threshold (4 / 16 / 32): no operation (queued, NOT registered);
+* threshold reached and an injected send failure is pending for the link's conn id: the batch is drained, the send
+  fails (the injection is consumed), `mark_for_recovery` — one `reset`;
+* threshold reached, no injected failure: the batch is drained and sent — one `send` per queued data packet
+  (old queue content first, then the new datagram), in queue order. -/
+def clientBlock (s : Sys F) (now : Nat) (pkt : Sys.Bytes) (j : Nat) : List KOp :=
+  match s.links[j]? with
+  | none => []
+  | some l =>
+    if (appended s (.client now pkt) j).isEmpty then []
+    else if (l.queue ++ appended s (.client now pkt) j).length < l.regime.batchSize then []
+    else if l.core.connId ∈ s.failNext then [.reset]
+    else (batchSeqs (l.queue ++ appended s (.client now pkt) j)).map .send
+
+theorem foldl_sends (q : List Int) (k : List Int) : (q.map KOp.send).foldl kstep k = q.foldl specRegister k := by
+  rw [List.foldl_map]; rfl
+
+/-- The keys after `Hk.fwdLink`, by the case table. -/
+theorem keys_fwdLink (l : FLink F) (pkt : Sys.Bytes) (seq : Option Nat) (now : Nat) (fn : List Nat) :
+    (Hk.fwdLink l pkt seq now fn).1.core.keys =
+      (if (l.queue ++ [(pkt, seq, now)]).length < l.regime.batchSize then l.core.keys
+       else if l.core.connId ∈ fn then []
+       else (batchSeqs (l.queue ++ [(pkt, seq, now)])).foldl specRegister l.core.keys) ∧
+    (¬ (l.queue ++ [(pkt, seq, now)]).length < l.regime.batchSize → l.core.connId ∈ fn →
+      (Hk.fwdLink l pkt seq now fn).2.2.count l.core.connId < fn.count l.core.connId) := by
+  obtain ⟨hq1, -, hq3, -, -, -⟩ := queueDataPacket_spec l pkt seq now
+  have hlen : (l.queue ++ [(pkt, seq, now)]).length = l.queue.length + 1 := by simp
+  rw [hlen]
+  rcases fwdLink_cases l pkt seq now fn with h | h | h
+  · refine ⟨?_, fun hn => absurd h.1 hn⟩
+    rw [if_pos h.1, h.2.1, hq3]
+  · refine ⟨?_, fun _ hc => absurd hc h.2.1⟩
+    rw [if_neg (by omega), if_neg h.2.1, h.2.2.1, keys_takeBatch, hq1, hq3]
+  · refine ⟨?_, fun _ _ => ?_⟩
+    · rw [if_neg (by omega), if_pos h.2.1, h.2.2.1]
+      rfl
+    · rw [h.2.2.2.2]
+      exact Hk.count_erase_lt fn _ (by simpa using h.2.1)
+
+/-- **A client event on link `j`, exactly**: the key list afterwards is the fold of the per-link set machine over
+`clientBlock s now pkt j`; and in the `reset` case the event consumed an injected send failure for the link's conn
+id (its multiplicity in `failNext` went down). -/
+theorem client_keys_exact (s : Sys F) (now : Nat) (pkt : Sys.Bytes) (hnd : (ids s.links).Nodup) (j : Nat)
+    (l : FLink F) (hl : s.links[j]? = some l) :
+    ∃ l', (step s (.client now pkt)).1.links[j]? = some l' ∧
+      l'.core.keys = (clientBlock s now pkt j).foldl kstep l.core.keys ∧
+      (clientBlock s now pkt j = [.reset] →
+        (step s (.client now pkt)).1.failNext.count l.core.connId < s.failNext.count l.core.connId) := by
+  show ∃ l', (handleSrtPacket s pkt now).1.links[j]? = some l' ∧ _ ∧
+    (_ → (handleSrtPacket s pkt now).1.failNext.count l.core.connId < _)
+  unfold clientBlock
+  rw [hl]
+  dsimp only
+  have happdef : appended s (.client now pkt) j = appendedClient s pkt now j := rfl
+  rw [happdef]
+  by_cases hnone : pkt.isEmpty = true ∨ target s pkt now = none
+  · -- empty datagram / no target: nothing appended, nothing changes
+    obtain ⟨-, l', h1, h2, -, -⟩ := client_none s pkt now hnone j l hl
+    have happ : appendedClient s pkt now j = [] := by
+      unfold appendedClient
+      rcases hnone with h | h
+      · rw [if_pos h]
+      · rw [h]; split <;> rfl
+    refine ⟨l', h1, ?_, ?_⟩
+    · rw [happ]; simp only [List.isEmpty_nil, if_true, List.foldl_nil]; rw [h2]
+    · rw [happ]; simp
+  · have hpe : pkt.isEmpty = false := by
+      cases h : pkt.isEmpty
+      · rfl
+      · exact absurd (Or.inl h) hnone
+    obtain ⟨sel, ht⟩ : ∃ sel, target s pkt now = some sel := by
+      cases h : target s pkt now with
+      | none => exact absurd (Or.inr h) hnone
+      | some sel => exact ⟨sel, rfl⟩
+    obtain ⟨l1, r1, rq, rc, rp, rr⟩ := routedLinks_getElem? s now j l hl
+    have happ : appendedClient s pkt now j =
+        clientApp (clientItem pkt now) (s.reg.hasConnected && (Codec.getSrtSequenceNumberS pkt).isSome) sel j l1 := by
+      unfold appendedClient
+      rw [if_neg (by simp [hpe]), ht, r1]
+    obtain ⟨hfle, hx⟩ := client_exact s pkt now sel hpe ht
+    -- the common end: `fwdLink` on a record `m` that agrees with `l` on queue, core and regime
+    have fin : ∀ (m : FLink F) (fn0 : List Nat), m.queue = l.queue → m.core = l.core → m.regime = l.regime →
+        (l.core.connId ∈ fn0 ↔ l.core.connId ∈ s.failNext) → Hk.FnLe s.failNext fn0 →
+        Hk.FnLe (Hk.fwdLink m pkt (Codec.getSrtSequenceNumberS pkt) now fn0).2.2 (handleSrtPacket s pkt now).1.failNext →
+        appendedClient s pkt now j = [clientItem pkt now] →
+        (Hk.fwdLink m pkt (Codec.getSrtSequenceNumberS pkt) now fn0).1.core.keys =
+          (if (appendedClient s pkt now j).isEmpty = true then []
+            else if (l.queue ++ appendedClient s pkt now j).length < l.regime.batchSize then []
+            else if l.core.connId ∈ s.failNext then [KOp.reset]
+            else (batchSeqs (l.queue ++ appendedClient s pkt now j)).map KOp.send).foldl kstep l.core.keys ∧
+        ((if (appendedClient s pkt now j).isEmpty = true then []
+            else if (l.queue ++ appendedClient s pkt now j).length < l.regime.batchSize then []
+            else if l.core.connId ∈ s.failNext then [KOp.reset]
+            else (batchSeqs (l.queue ++ appendedClient s pkt now j)).map KOp.send) = [KOp.reset] →
+          (handleSrtPacket s pkt now).1.failNext.count l.core.connId < s.failNext.count l.core.connId) := by
+      intro m fn0 hmq hmc hmr hmem h0 e2 ha
+      obtain ⟨k1, k2⟩ := keys_fwdLink m pkt (Codec.getSrtSequenceNumberS pkt) now fn0
+      rw [hmq, hmc, hmr] at k1 k2
+      rw [ha]
+      simp only [List.isEmpty_cons, Bool.false_eq_true, if_false]
+      have hci : clientItem pkt now = (pkt, Codec.getSrtSequenceNumberS pkt, now) := rfl
+      rw [hci]
+      refine ⟨?_, fun hr => ?_⟩
+      · rw [k1]
+        split
+        · rfl
+        · by_cases hc : l.core.connId ∈ s.failNext
+          · rw [if_pos (hmem.2 hc), if_pos hc]; rfl
+          · rw [if_neg (fun h => hc (hmem.1 h)), if_neg hc, foldl_sends]
+      · split at hr
+        · cases hr
+        · rename_i hthr
+          by_cases hc : l.core.connId ∈ s.failNext
+          · exact Nat.lt_of_le_of_lt (e2 _) (Nat.lt_of_lt_of_le (k2 hthr (hmem.2 hc)) (h0 _))
+          · rw [if_neg hc] at hr
+            -- a block of sends equal to `[reset]`: impossible
+            cases hb : batchSeqs (l.queue ++ [(pkt, Codec.getSrtSequenceNumberS pkt, now)]) with
+            | nil => rw [hb] at hr; cases hr
+            | cons a t => rw [hb] at hr; cases hr
+    rcases hx j l1 r1 with ⟨hi, e1, e2, -⟩ | ⟨hi, hnp, e1⟩ | ⟨hi, hp, hpc, fnk, f1, f2, e1, e2, -⟩
+    · -- the chosen link
+      refine ⟨_, e1, ?_⟩
+      exact fin l1 s.failNext rq rc rr Iff.rfl (Hk.FnLe.refl _) e2
+        (by rw [happ]; unfold clientApp; rw [if_pos hi])
+    · -- another link, `stall_probe_due` not consulted
+      have ha : appendedClient s pkt now j = [] := by
+        rw [happ]
+        unfold clientApp probeApp
+        rw [if_neg hi]
+        split
+        · rename_i hpp
+          rw [if_neg (fun h => hnp ⟨hpp, h.1⟩)]
+        · rfl
+      refine ⟨l1, e1, ?_, ?_⟩
+      · rw [ha]; simp only [List.isEmpty_nil, if_true, List.foldl_nil]; rw [rc]
+      · rw [ha]; simp
+    · -- a probe link
+      have hcnt := f2 hnd
+      rw [rc] at hcnt
+      have hmem : l.core.connId ∈ fnk ↔ l.core.connId ∈ s.failNext := by
+        rw [← List.count_pos_iff, ← List.count_pos_iff, hcnt]
+      obtain ⟨-, -, d3, d4, d5⟩ := stallProbeDue_spec l1
+      rcases probeLink_cases l1 pkt (Codec.getSrtSequenceNumberS pkt) now fnk with ⟨hlt, hpl⟩ | ⟨hge, hpl⟩
+      · have ha : appendedClient s pkt now j = [] := by
+          rw [happ]
+          unfold clientApp probeApp
+          rw [if_neg hi, if_pos hp, if_neg (fun h => by omega)]
+        rw [hpl] at e1
+        refine ⟨_, e1, ?_, ?_⟩
+        · rw [ha]; simp only [List.isEmpty_nil, if_true, List.foldl_nil]; rw [d4, rc]
+        · rw [ha]; simp
+      · rw [hpl] at e1 e2
+        refine ⟨_, e1, ?_⟩
+        exact fin l1.stallProbeDue.1 fnk (by rw [d3, rq]) (by rw [d4, rc]) (by rw [d5, rr]) hmem f1 e2
+          (by rw [happ]; unfold clientApp probeApp; rw [if_neg hi, if_pos hp, if_pos ⟨hpc, hge⟩])
+
+/-- The block of a `flush` event on link `j`: one `send` per queued data packet, in queue order
+(`C02_shell_flush_exact`). -/
+def flushBlock (s : Sys F) (j : Nat) : List KOp :=
+  match s.links[j]? with
+  | none => []
+  | some l => (batchSeqs l.queue).map .send
+
 end Srtla.SysDir
